@@ -96,9 +96,23 @@ class LoaderTable:
                                                and 'halo_field_loaders' in unparse(n.targets[0]))
                 continue
             if isinstance(s, ast.If) and 'convert_units' in unparse(s.test):
-                t = {unparse(a.targets[0]): a.value for a in s.body if isinstance(a, ast.Assign)}
-                f = {unparse(a.targets[0]): a.value for a in s.orelse if isinstance(a, ast.Assign)}
-                self.unit_switch = dict(test=unparse(s.test), true=t, false=f, node=s)
+                def binds(block):
+                    out = {}
+                    for a in block:
+                        if not isinstance(a, ast.Assign):
+                            continue
+                        tg, v = a.targets[0], a.value
+                        if isinstance(tg, (ast.Tuple, ast.List)) and isinstance(v, (ast.Tuple, ast.List)) and len(tg.elts) == len(v.elts):
+                            for e_, x_ in zip(tg.elts, v.elts):          # box, zspace_to_kms = (A, B)
+                                out[unparse(e_)] = x_
+                        else:
+                            out[unparse(tg)] = v
+                    return out
+                t, f = binds(s.body), binds(s.orelse)
+                test_txt = unparse(s.test)
+                if isinstance(s.test, ast.UnaryOp) and isinstance(s.test.op, ast.Not):
+                    t, f, test_txt = f, t, unparse(s.test.operand)         # `if not self.convert_units: <identity> else: <header factors>`
+                self.unit_switch = dict(test=test_txt, true=t, false=f, node=s)
                 for name, v in t.items():
                     txt = unparse(v)
                     if "'BoxSize'" in txt:
@@ -145,6 +159,10 @@ class LoaderTable:
         val = ev.ev(node.body) if isinstance(node, ast.Lambda) else ev.run_body(node.body)
         return dict(value=val, raw=ev.raw, halos=ev.halos, frees=ev.frees, loader=idx[0], requested=name,
                     impure=ev.impure, promo=ev.promo)
+
+
+class Vec(list):
+    """Several columns stacked along a new first axis (np.array([a, b], dtype=...)): arithmetic is element-wise, .sum(axis=0) adds them."""
 
 
 class _ConstTable(dict):
@@ -434,6 +452,16 @@ class _LoaderEval:
             a, b = self.ev(n.left), self.ev(n.right)
             if isinstance(a, str) and isinstance(b, str) and isinstance(n.op, ast.Add):
                 return a + b
+            if isinstance(a, Vec) and isinstance(b, Poly) and all(isinstance(x, Poly) for x in a):
+                try:
+                    if isinstance(n.op, ast.Pow):
+                        return Vec([x ** b for x in a])
+                    if isinstance(n.op, ast.Mult):
+                        return Vec([x * b for x in a])
+                except ValueError:
+                    pass
+            if isinstance(a, Vec) and isinstance(b, Vec) and len(a) == len(b) and isinstance(n.op, ast.Mult) and all(isinstance(x, Poly) for x in list(a) + list(b)):
+                return Vec([x * y for x, y in zip(a, b)])
             self.kind(n)
             if isinstance(a, Poly) and isinstance(b, Poly):
                 try:
@@ -492,6 +520,18 @@ class _LoaderEval:
                 a, b = self.ev(n.args[0]), self.ev(n.args[1])
                 if isinstance(recv, str) and isinstance(a, str) and isinstance(b, str):
                     return recv.replace(a, b)
+            if cn in ('np.array', 'np.stack', 'np.asarray') and n.args and isinstance(n.args[0], (ast.List, ast.Tuple)) and len(n.args) == 1 \
+                    and all(k.arg in ('dtype', 'axis') for k in n.keywords) and not any(k.arg == 'axis' and unparse(k.value) != '0' for k in n.keywords):
+                elts = [self.ev(e) for e in n.args[0].elts]
+                if elts and all(isinstance(e, Poly) for e in elts):
+                    return Vec(elts)
+            if isinstance(n.func, ast.Attribute) and n.func.attr == 'sum' and not n.args and [unparse(k.value) for k in n.keywords if k.arg == 'axis'] == ['0'] and len(n.keywords) == 1:
+                recv = self.ev(n.func.value)
+                if isinstance(recv, Vec) and all(isinstance(x, Poly) for x in recv):
+                    tot = recv[0]
+                    for x in recv[1:]:
+                        tot = tot + x
+                    return tot
             if isinstance(n.func, ast.Attribute) and n.func.attr in ('reshape', 'astype', 'copy', 'view'):
                 for a in n.args:
                     self.ev(a)
